@@ -151,6 +151,8 @@ class VirtualLoop(asyncio.SelectorEventLoop):
         self._v_idle = False
         self.on_tick = None
         self._v_busy = 0
+        self.unhandled = []        # contexts the loop's exception handler received (e.g. unretrieved task errors)
+        self.set_exception_handler(lambda _loop, ctx: self.unhandled.append(ctx))
         self._clock_resolution = 0.25     # integer times: a handle is due iff when <= now
 
     def time(self):
